@@ -55,6 +55,8 @@ type C20Step struct {
 
 type C20Case struct {
 	Steps []C20Step `json:"steps"`
+	// Alt: the inputs the same chain is evaluated over next (same kinds and bounds, other values / conditions / results)
+	Alt []C20Step `json:"alternative_inputs,omitempty"`
 }
 
 // refFails is the documented failure condition of each step kind.
@@ -155,24 +157,31 @@ func c20Eval(c *checker.Checker) (failed bool) {
 }
 
 func c20Build(steps []C20Step, tr *c20Trace) *checker.Checker {
+	cur := steps
+	return c20BuildOn(steps, &cur, tr)
+}
+
+// c20BuildOn builds the chain of steps; the closures read the values, conditions and outcomes of the moment from *cur (same
+// kinds and bounds as steps), so that one chain can be evaluated over changing inputs - which is how handlers' closures behave.
+func c20BuildOn(steps []C20Step, cur *[]C20Step, tr *c20Trace) *checker.Checker {
 	c := &checker.Checker{}
 	for i := range steps {
 		i := i
 		s := steps[i]
-		val := func() string { tr.add(i, 'v'); return s.Value }
+		val := func() string { tr.add(i, 'v'); return (*cur)[i].Value }
 		errF := func() {
 			tr.add(i, 'e')
 			if s.PanicCB {
 				panic(errC20Callback)
 			}
 		}
-		cond := func() bool { tr.add(i, 'c'); return s.Cond }
+		cond := func() bool { tr.add(i, 'c'); return (*cur)[i].Cond }
 		logic := func() error {
 			tr.add(i, 'l')
 			if s.Reenter {
 				tr.reenter()
 			}
-			if s.LogicErr {
+			if (*cur)[i].LogicErr {
 				if s.TypedNil {
 					if i%2 == 0 {
 						var e *c20PtrErr
@@ -188,11 +197,11 @@ func c20Build(steps []C20Step, tr *c20Trace) *checker.Checker {
 		case kNotEmpty:
 			c.WithValueNotEmptyCheck("n", val, errF)
 		case kValuesNotEmpty:
-			c.WithValuesNotEmptyCheck(func() []string { tr.add(i, 'v'); return s.Values }, errF)
+			c.WithValuesNotEmptyCheck(func() []string { tr.add(i, 'v'); return (*cur)[i].Values }, errF)
 		case kLength:
 			c.WithValueLengthCheck("n", val, s.Min, s.Max, errF)
 		case kEquals:
-			c.WithValueEqualsCheck("n", val, func() string { tr.add(i, 'v'); return s.Equal }, errF)
+			c.WithValueEqualsCheck("n", val, func() string { tr.add(i, 'v'); return (*cur)[i].Equal }, errF)
 		case kCondNotEmpty:
 			c.WithConditionalValueNotEmpty(cond, "n", val, errF)
 		case kCondLogic:
@@ -468,7 +477,7 @@ func genC20Step(t *rapid.T) C20Step {
 			s.Equal = str.Draw(t, "equal")
 		default:
 			// nearly equal: one side with a trailing slash / blank / NUL, other letter case, a prefix of the other
-			near := rapid.SampledFrom([]string{"slash", "slash-left", "blank", "nul", "upper", "prefix", "lead-blank"}).Draw(t, "near")
+			near := rapid.SampledFrom([]string{"slash", "slash-left", "blank", "nul", "upper", "prefix", "lead-blank", "same-length"}).Draw(t, "near")
 			switch near {
 			case "slash":
 				s.Equal = s.Value + "/"
@@ -488,6 +497,11 @@ func genC20Step(t *rapid.T) C20Step {
 				}
 			case "lead-blank":
 				s.Equal = " " + s.Value
+			case "same-length":
+				// different strings of one length whose byte differences cancel in sums, xors, hashes of few bits: 8 letters in
+				// the other case, 4 bytes with bit 0x40 flipped, 2 with bit 0x80, two characters swapped
+				pair := rapid.SampledFrom([][2]string{{"ABCDEFGH", "abcdefgh"}, {"https://IDP.example.com/SAML/Sso", "https://idp.example.com/saml/sso"}, {"id-aaaa", "id-!!!!"}, {"n\xc3\xa4me", "nC$me"}, {"ab", "ba"}, {"a\x00b", "a b"}, {"\x01\xff", "\xff\x01"}}).Draw(t, "same-length-pair")
+				s.Value, s.Equal = pair[0], pair[1]
 			}
 		}
 	case kCondNotEmpty:
@@ -506,10 +520,17 @@ func TestC20(t *testing.T) {
 	col := ev.For("C20", "exploration", c20Rule)
 	searchRapid(t, col,
 		func(t *rapid.T) C20Case {
-			return C20Case{Steps: rapid.SliceOfN(rapid.Custom(genC20Step), 0, 40).Draw(t, "steps")}
+			c := C20Case{Steps: rapid.SliceOfN(rapid.Custom(genC20Step), 0, 40).Draw(t, "steps")}
+			if rapid.Bool().Draw(t, "changing-inputs") {
+				c.Alt = c20Alt(t, c.Steps)
+			}
+			return c
 		},
 		func(c C20Case) []*ev.Violation {
 			v := c20Check(c.Steps)
+			if v == nil && len(c.Alt) == len(c.Steps) {
+				v = c20CheckChanging(c.Steps, c.Alt)
+			}
 			vec := make([]string, len(c.Steps))
 			for i, s := range c.Steps {
 				vec[i] = fmt.Sprintf("%d%v", s.Kind, s.refFails())
@@ -521,4 +542,96 @@ func TestC20(t *testing.T) {
 			col.Case(c20Nontrivial(c.Steps), ev.Fingerprint(vec), []string{cls}, func() any { return c })
 			return []*ev.Violation{v}
 		})
+}
+
+// c20CheckChanging evaluates ONE chain over changing inputs: first with the outcomes of steps, then with those of alt (same
+// kinds and bounds, other values / conditions / logic results), then with steps again. Every evaluation is judged by the
+// inputs of its moment: which step fails first, that its callback runs once and last, and that nothing after it runs.
+func c20CheckChanging(steps, alt []C20Step) *ev.Violation {
+	tr := &c20Trace{noEnter: true}
+	cur := steps
+	c := c20BuildOn(steps, &cur, tr)
+	for round, params := range [][]C20Step{steps, alt, steps, alt} {
+		cur = params
+		first := -1
+		for i, s := range params {
+			if s.refFails() {
+				first = i
+				break
+			}
+		}
+		tr.ev = tr.ev[:0]
+		got := c20Eval(c)
+		if got != (first >= 0) {
+			return ev.V("C20/verdict", "evaluation %d over changed inputs: CheckFailed=%v, reference says first failing step=%d; trace %s", round, got, first, tr)
+		}
+		ncb := 0
+		for _, e := range tr.ev {
+			if first >= 0 && e.step > first {
+				return ev.V("C20/ran-after-failure", "evaluation %d over changed inputs: step %d ran although step %d failed; trace %s", round, e.step, first, tr)
+			}
+			if e.what == 'e' {
+				ncb++
+				if e.step != first {
+					return ev.V("C20/callback-count", "evaluation %d over changed inputs: failure callback of step %d ran, first failing step is %d; trace %s", round, e.step, first, tr)
+				}
+			}
+		}
+		if (first >= 0 && ncb != 1) || (first < 0 && ncb != 0) {
+			return ev.V("C20/callback-count", "evaluation %d over changed inputs: %d failure callbacks; trace %s", round, ncb, tr)
+		}
+		if first < 0 {
+			// every logic / value step ran
+			for i, s := range params {
+				if s.Kind == kLogic || s.Kind == kValueStep || (s.Kind == kCondLogic && s.Cond) {
+					ran := false
+					for _, e := range tr.ev {
+						ran = ran || (e.step == i && e.what == 'l')
+					}
+					if !ran {
+						return ev.V("C20/logic-count", "evaluation %d over changed inputs: step %d did not run although no step failed; trace %s", round, i, tr)
+					}
+				}
+			}
+		}
+	}
+	return nil
+}
+
+// c20Alt derives the alternative inputs of a chain: per step the other outcome where the kind has one.
+func c20Alt(t *rapid.T, steps []C20Step) []C20Step {
+	alt := append([]C20Step(nil), steps...)
+	for i := range alt {
+		if !rapid.Bool().Draw(t, "alt-flip") {
+			continue
+		}
+		switch alt[i].Kind {
+		case kNotEmpty:
+			alt[i].Value = map[bool]string{true: "", false: "now-set"}[alt[i].Value != ""]
+		case kValuesNotEmpty:
+			if len(alt[i].Values) > 0 && alt[i].Values[0] != "" {
+				alt[i].Values = append([]string{""}, alt[i].Values...)
+			} else {
+				alt[i].Values = []string{"a"}
+			}
+		case kLength:
+			alt[i].Value = alt[i].Value + alt[i].Value + "xxxxxxxxxxxxxxxx"
+		case kEquals:
+			if alt[i].Value == alt[i].Equal {
+				alt[i].Equal += "-other"
+			} else {
+				alt[i].Equal = alt[i].Value
+			}
+		case kCondNotEmpty, kCondLogic:
+			if rapid.Bool().Draw(t, "alt-cond") {
+				alt[i].Cond = !alt[i].Cond
+			} else {
+				alt[i].LogicErr = !alt[i].LogicErr
+				alt[i].Value = map[bool]string{true: "", false: "now-set"}[alt[i].Value != ""]
+			}
+		case kLogic:
+			alt[i].LogicErr = !alt[i].LogicErr
+		}
+	}
+	return alt
 }
